@@ -1,12 +1,1194 @@
-/- C05 model — placeholder until the property is built -/
-import Klong.Model.Wire
+/-
+  C05 — compiled and interpreted execution of an expression are indistinguishable.
+
+  Mirrors (klongpy):
+    compiler.py            `_ast_to_ir`, `compile_expr`                      -> `astToIR`, `compile`
+    backends/base.py       `_collect_params`, `_compiled_helpers`, `vec_fn2` -> `collect`, `binSem`, `vecFn2`
+    backends/numpy_backend `_ir_to_source`, `compile_expr_ir`                -> `irToPy`, `PyExpr.render`
+    backends/torch_backend `_ir_to_source`                                   -> `irToPy` with the torch tables
+    interpreter.py         `eval` (operator / adverb-chain branches), `__call__` (try compiled,
+                           fall back on any exception), `x._compiled` memo   -> `Sys.eval`, `runCompiled`
+    dyads.py               add subtract multiply divide power equal less more maximum minimum
+    monads.py              negate
+    adverbs.py             `eval_adverb_over`, `eval_adverb_scan_over`        -> `Interp.*`
+
+  Values are numpy-side values: scalars, rectangular numeric arrays (flat data + shape) and rank-1
+  object arrays whose elements are scalars or numeric arrays (what `kg_asarray` builds for ragged
+  lists).  Anything deeper is `NV.unmod` (outside the model; it propagates as a value).
+
+  The operator sets and the op -> source tables come from `Klong.Generated.C05Tables`, regenerated from
+  the Python sources on every run.
+-/
+import Klong.Model.Val
+import Klong.Generated.C05Tables
 namespace Klong.C05
+
+/-! ## values -/
+
+inductive Sc where
+  | int (n : Int)
+  | real (b : UInt64)
+deriving DecidableEq, Repr, Inhabited
+
+/-- numeric ndarray of rank >= 1: shape and row-major data -/
+structure Arr where
+  shape : List Nat
+  data : List Sc
+deriving DecidableEq, Repr, Inhabited
+
+/-- element of a rank-1 object array -/
+inductive El where
+  | sc (s : Sc)
+  | arr (a : Arr)
+deriving DecidableEq, Repr, Inhabited
+
+inductive NV where
+  | sc (s : Sc)
+  | arr (a : Arr)
+  | obj (xs : List El)
+  | undef
+  | unmod
+deriving DecidableEq, Repr, Inhabited
+
+inductive Res where
+  | ok (v : NV)
+  | raised
+deriving DecidableEq, Repr, Inhabited
+
+def Res.bind (r : Res) (f : NV → Res) : Res :=
+  match r with
+  | .ok v => f v
+  | .raised => .raised
+
+def optRes (o : Option NV) : Res :=
+  match o with
+  | some v => .ok v
+  | none => .raised
+
+/-- what a caller can observe: `:undefined` and an error are one class -/
+inductive Obs where
+  | val (v : NV)
+  | undefOrError
+deriving DecidableEq, Repr
+
+def obs : Res → Obs
+  | .ok .undef => .undefOrError
+  | .ok v => .val v
+  | .raised => .undefOrError
+
+/-- the compiled function's outcome as the caller sees it: any exception means that the
+    interpreter's answer `fallback` is used (interpreter.py: `except Exception: pass`) -/
+def orElse (compiled : Res) (fallback : Res) : Res :=
+  match compiled with
+  | .ok v => .ok v
+  | .raised => fallback
+
+/-! ## scalars -/
+
+def minI64 : Int := -9223372036854775808
+def maxI64 : Int := 9223372036854775807
+def inRange (n : Int) : Bool := decide (minI64 ≤ n) && decide (n ≤ maxI64)
+/-- two's complement wrap to int64 -/
+def wrap64 (n : Int) : Int := (n - minI64) % 18446744073709551616 + minI64
+
+def Sc.toFloat : Sc → Float
+  | .int n => Float.ofInt n
+  | .real b => Float.ofBits b
+
+def Sc.ofFloat (x : Float) : Sc := .real x.toBits
+
+def Sc.isReal : Sc → Bool
+  | .real _ => true
+  | .int _ => false
+
+def Sc.toReal (s : Sc) : Sc := Sc.ofFloat s.toFloat
+
+def Sc.isZero : Sc → Bool
+  | .int n => n == 0
+  | .real b => Float.ofBits b == 0.0
+
+inductive AOp where
+  | add | sub | mul | max | min
+deriving DecidableEq, Repr
+
+def AOp.int : AOp → Int → Int → Int
+  | .add, a, b => a + b
+  | .sub, a, b => a - b
+  | .mul, a, b => a * b
+  | .max, a, b => if a ≥ b then a else b
+  | .min, a, b => if a ≤ b then a else b
+
+def AOp.flt : AOp → Float → Float → Float
+  | .add, a, b => a + b
+  | .sub, a, b => a - b
+  | .mul, a, b => a * b
+  | .max, a, b => if a.isNaN then a else if b.isNaN then b else if a ≥ b then a else b
+  | .min, a, b => if a.isNaN then a else if b.isNaN then b else if a ≤ b then a else b
+
+/-- Python arithmetic on two Python numbers (integers are unbounded) -/
+def scExact (op : AOp) : Sc → Sc → Sc
+  | .int a, .int b => .int (op.int a b)
+  | a, b => Sc.ofFloat (op.flt a.toFloat b.toFloat)
+
+/-- numpy ufunc on two scalars / two array elements: int64 arithmetic wraps, a Python integer outside
+    int64 cannot be converted (OverflowError) -/
+def scNp (op : AOp) : Sc → Sc → Option Sc
+  | .int a, .int b => if inRange a && inRange b then some (.int (wrap64 (op.int a b))) else none
+  | a, b => some (Sc.ofFloat (op.flt a.toFloat b.toFloat))
+
+def scNegExact : Sc → Sc
+  | .int a => .int (-a)
+  | .real b => Sc.ofFloat (-(Float.ofBits b))
+
+def scNegNp : Sc → Option Sc
+  | .int a => if inRange a then some (.int (wrap64 (-a))) else none
+  | .real b => some (Sc.ofFloat (-(Float.ofBits b)))
+
+/-- np.divide on elements: never raises -/
+def scDivNp (x y : Sc) : Option Sc := some (Sc.ofFloat (x.toFloat / y.toFloat))
+/-- Python `/` on two Python numbers -/
+def scDivPy (x y : Sc) : Option Sc := if y.isZero then none else some (Sc.ofFloat (x.toFloat / y.toFloat))
+
+inductive COp where
+  | eq | lt | gt
+deriving DecidableEq, Repr
+
+def scCmp (op : COp) (x y : Sc) : Option Sc :=
+  let b : Bool := match op, x, y with
+    | .eq, .int a, .int b => a == b
+    | .lt, .int a, .int b => decide (a < b)
+    | .gt, .int a, .int b => decide (a > b)
+    | .eq, a, b => a.toFloat == b.toFloat
+    | .lt, a, b => decide (a.toFloat < b.toFloat)
+    | .gt, a, b => decide (a.toFloat > b.toFloat)
+  some (.int (if b then 1 else 0))
+
+/-! ## rectangular arrays: numpy broadcasting -/
+
+def prod (s : List Nat) : Nat := s.foldl (· * ·) 1
+
+/-- exactly `n` chunks of `size` elements -/
+def chunks {α : Type} : Nat → Nat → List α → List (List α)
+  | 0, _, _ => []
+  | n + 1, size, d => d.take size :: chunks n size (d.drop size)
+
+def padShape (r : Nat) (s : List Nat) : List Nat := List.replicate (r - s.length) 1 ++ s
+
+/-- result shape of broadcasting two shapes of equal rank -/
+def bshape : List Nat → List Nat → Option (List Nat)
+  | [], [] => some []
+  | na :: sa, nb :: sb =>
+    match bshape sa sb with
+    | none => none
+    | some s =>
+      if na = nb then some (na :: s)
+      else if na = 1 then some (nb :: s)
+      else if nb = 1 then some (na :: s)
+      else none
+  | _, _ => none
+
+def allSome {α : Type} : List (Option α) → Option (List α)
+  | [] => some []
+  | none :: _ => none
+  | some x :: r => (allSome r).map (x :: ·)
+
+/-- element data of the broadcast of two arrays of equal rank -/
+def bdata (f : Sc → Sc → Option Sc) : List Nat → List Nat → List Sc → List Sc → Option (List Sc)
+  | [], [], [x], [y] => (f x y).map ([·])
+  | na :: sa, nb :: sb, da, db =>
+    let ca := chunks na (prod sa) da
+    let cb := chunks nb (prod sb) db
+    let pairs : Option (List (List Sc × List Sc)) :=
+      if na = nb then some (ca.zip cb)
+      else if na = 1 then some (cb.map fun y => (ca.headD [], y))
+      else if nb = 1 then some (ca.map fun x => (x, cb.headD []))
+      else none
+    match pairs with
+    | none => none
+    | some ps => (allSome (ps.map fun p => bdata f sa sb p.1 p.2)).map List.flatten
+  | _, _, _, _ => none
+
+/-- a scalar is an array of shape [] -/
+def mkNum (s : List Nat) (d : List Sc) : Option NV :=
+  match s, d with
+  | [], [x] => some (.sc x)
+  | [], _ => none
+  | s, d => some (.arr ⟨s, d⟩)
+
+def numBin (f : Sc → Sc → Option Sc) (sa : List Nat) (da : List Sc) (sb : List Nat) (db : List Sc) : Option NV :=
+  let r := max sa.length sb.length
+  let pa := padShape r sa
+  let pb := padShape r sb
+  match bshape pa pb, bdata f pa pb da db with
+  | some s, some d => mkNum s d
+  | _, _ => none
+
+/-- (shape, data) view of a numeric value -/
+def NV.num? : NV → Option (List Nat × List Sc)
+  | .sc s => some ([], [s])
+  | .arr a => some (a.shape, a.data)
+  | _ => none
+
+def El.toNV : El → NV
+  | .sc s => .sc s
+  | .arr a => .arr a
+
+def NV.toEl? : NV → Option El
+  | .sc s => some (.sc s)
+  | .arr a => some (.arr a)
+  | _ => none
+
+def El.num (e : El) : List Nat × List Sc :=
+  match e with
+  | .sc s => ([], [s])
+  | .arr a => (a.shape, a.data)
+
+/-- Python-level operator between two elements of object arrays -/
+def elBin (fpy fnp : Sc → Sc → Option Sc) (x y : El) : Option El :=
+  match x, y with
+  | .sc a, .sc b => (fpy a b).map .sc
+  | x, y => (numBin fnp x.num.1 x.num.2 y.num.1 y.num.2).bind NV.toEl?
+
+/-- the rows of a numeric array along axis 0 -/
+def Arr.rows (a : Arr) : List El :=
+  match a.shape with
+  | [] => []
+  | [_] => a.data.map .sc
+  | n :: rest => (chunks n (prod rest) a.data).map fun d => .arr ⟨rest, d⟩
+
+def Arr.len (a : Arr) : Nat := a.shape.headD 0
+
+/-- element lists of two rank-1 operands paired with numpy broadcasting (equal length or length 1) -/
+def pair1 {α : Type} (xs ys : List α) : Option (List (α × α)) :=
+  if xs.length = ys.length then some (xs.zip ys)
+  else match xs, ys with
+    | [x], ys => some (ys.map fun y => (x, y))
+    | xs, [y] => some (xs.map fun x => (x, y))
+    | _, _ => none
+
+def objZip (g : El → El → Option El) (xs ys : List El) : Res :=
+  match pair1 xs ys with
+  | none => .raised
+  | some ps => match allSome (ps.map fun p => g p.1 p.2) with
+    | some es => .ok (.obj es)
+    | none => .raised
+
+/-- generic binary ufunc / operator on two values: `fpy` between two Python numbers held in object
+    arrays, `fnp` between array elements; `objOK = false` for ufuncs whose object loop is outside the model -/
+def genBin (fpy fnp : Sc → Sc → Option Sc) (objOK : Bool) (a b : NV) : Res :=
+  match a, b with
+  | .unmod, _ => .ok .unmod
+  | _, .unmod => .ok .unmod
+  | .undef, _ => .raised
+  | _, .undef => .raised
+  | .obj xs, .obj ys => if objOK then objZip (elBin fpy fnp) xs ys else .ok .unmod
+  | .obj xs, .sc s => if objOK then objZip (elBin fpy fnp) xs [.sc s] else .ok .unmod
+  | .sc s, .obj ys => if objOK then objZip (elBin fpy fnp) [.sc s] ys else .ok .unmod
+  | .obj xs, .arr a =>
+    if a.shape.length = 1 && objOK then objZip (elBin fpy fnp) xs a.rows else .ok .unmod
+  | .arr a, .obj ys =>
+    if a.shape.length = 1 && objOK then objZip (elBin fpy fnp) a.rows ys else .ok .unmod
+  | .sc x, .sc y => optRes (numBin fnp [] [x] [] [y])
+  | .sc x, .arr b => optRes (numBin fnp [] [x] b.shape b.data)
+  | .arr a, .sc y => optRes (numBin fnp a.shape a.data [] [y])
+  | .arr a, .arr b => optRes (numBin fnp a.shape a.data b.shape b.data)
+
+/-- `np.add / np.subtract / np.multiply / np.maximum / np.minimum (a, b)` -/
+def npBin (op : AOp) (a b : NV) : Res :=
+  genBin (fun x y => some (scExact op x y)) (scNp op)
+    (match op with | .max => false | .min => false | _ => true) a b
+
+/-- Python `a + b`, `a - b`, `a * b` in generated code: Python arithmetic on two numbers,
+    otherwise `ndarray.__add__` = the ufunc -/
+def pyBin (op : AOp) (a b : NV) : Res :=
+  match a, b with
+  | .sc x, .sc y => .ok (.sc (scExact op x y))
+  | a, b => npBin op a b
+
+/-! ## kg_asarray on a list of results (vec_fn2) -/
+
+def anyReal (d : List Sc) : Bool := d.any Sc.isReal
+def upcast (d : List Sc) : List Sc := if anyReal d then d.map Sc.toReal else d
+
+def allSc : List NV → Option (List Sc)
+  | [] => some []
+  | .sc s :: r => (allSc r).map (s :: ·)
+  | _ :: _ => none
+
+def allArrShape (s : List Nat) : List NV → Option (List Sc)
+  | [] => some []
+  | .arr a :: r => if a.shape = s then (allArrShape s r).map (a.data ++ ·) else none
+  | _ :: _ => none
+
+def allEl : List NV → Option (List El)
+  | [] => some []
+  | v :: r => match v.toEl?, allEl r with
+    | some e, some es => some (e :: es)
+    | _, _ => none
+
+/-- `kg_asarray` of a Python list of results; `boolLeaves`: the results are numpy bools (dtype kind 'b'
+    is rejected by kg_asarray and the list becomes an object array) -/
+def kgAsarray (boolLeaves : Bool) (rs : List NV) : NV :=
+  match allSc rs with
+  | some d => if boolLeaves then .unmod else .arr ⟨[d.length], upcast d⟩
+  | none =>
+    match rs with
+    | .arr a0 :: _ =>
+      match allArrShape a0.shape rs with
+      | some d => if boolLeaves then .unmod else .arr ⟨rs.length :: a0.shape, upcast d⟩
+      | none => match allEl rs with
+        | some es => .obj es
+        | none => .unmod
+    | _ => match allEl rs with
+      | some es => .obj es
+      | none => .unmod
+
+def allOk : List Res → Option (List NV)
+  | [] => some []
+  | .ok v :: r => (allOk r).map (v :: ·)
+  | .raised :: _ => none
+
+/-- base.py `vec_fn2(a, b, f)` on the modelled values (object arrays hold no object arrays, so the
+    recursion is one level deep) -/
+def vecFn2 (boolLeaves : Bool) (f : NV → NV → Res) (a b : NV) : Res :=
+  let fin (rs : List Res) : Res :=
+    match allOk rs with
+    | none => .raised
+    | some vs => if vs.any (· == .unmod) then .ok .unmod else .ok (kgAsarray boolLeaves vs)
+  match a, b with
+  | .unmod, _ => .ok .unmod
+  | _, .unmod => .ok .unmod
+  | .obj xs, .obj ys =>
+    if xs.length = ys.length then fin ((xs.zip ys).map fun p => f p.1.toNV p.2.toNV) else .raised
+  | .obj xs, .arr b =>
+    if xs.length = b.len then fin ((xs.zip b.rows).map fun p => f p.1.toNV p.2.toNV) else .raised
+  | .arr a, .obj ys =>
+    if a.len = ys.length then fin ((a.rows.zip ys).map fun p => f p.1.toNV p.2.toNV) else .raised
+  | .obj xs, b => fin (xs.map fun x => f x.toNV b)
+  | a, .obj ys => fin (ys.map fun y => f a y.toNV)
+  | a, b => f a b
+
+/-! ## the verbs the interpreter applies (dyads.py, monads.py) -/
+
+def isList : NV → Bool
+  | .arr _ => true
+  | .obj _ => true
+  | _ => false
+
+/-- dyads.py `eval_dyad_divide` -/
+def kgDivide (a b : NV) : Res :=
+  match a, b with
+  | .unmod, _ => .ok .unmod
+  | _, .unmod => .ok .unmod
+  | a, .sc y => if !isList a && y.isZero then .ok .undef else genBin scDivPy scDivNp true a (.sc y)
+  | a, b => genBin scDivPy scDivNp true a b
+
+/-- dyads.py `eval_dyad_equal / less / more`: vec_fn2 over a broadcasting comparison, `*1` -/
+def kgCmp (op : COp) (a b : NV) : Res :=
+  let leaf (x y : NV) : Res :=
+    match op, x, y with
+    | .eq, .undef, .undef => .ok (.sc (.int 1))
+    | .eq, .undef, .sc _ => .ok (.sc (.int 0))
+    | .eq, .sc _, .undef => .ok (.sc (.int 0))
+    | .eq, .undef, _ => .ok .unmod
+    | .eq, _, .undef => .ok .unmod
+    | _, x, y => genBin (scCmp op) (scCmp op) false x y
+  vecFn2 (op != .eq) leaf a b
+
+/-! ### Power -/
+
+def fTrunc (x : Float) : Float := if x < 0 then x.ceil else x.floor
+
+/-- exact integer value of a finite integral float (Python `int(x)`) -/
+def floatToIntExact (x : Float) : Int :=
+  let (m, e) := x.frExp
+  let mant : Int := (m.scaleB 53).toInt64.toInt
+  let k := e - 53
+  if k ≥ 0 then mant * (2 : Int) ^ k.toNat else mant / (2 : Int) ^ (-k).toNat
+
+/-- C cast double -> int64 (`np.asarray(r, dtype=int)`): out of range and NaN give INT64_MIN -/
+def floatToI64 (x : Float) : Int :=
+  if x.isNaN || x.isInf then minI64
+  else
+    let n := floatToIntExact (fTrunc x)
+    if inRange n then n else minI64
+
+def intPow (a : Int) (b : Nat) : Int := wrap64 (a ^ b)
+
+def Sc.isNegInt : Sc → Bool
+  | .int n => decide (n < 0)
+  | .real _ => false
+
+/-- np.power on elements: integer ** integer stays integer (negative exponents are rejected
+    beforehand), anything else is float pow -/
+def scPow (x y : Sc) : Option Sc :=
+  match x, y with
+  | .int a, .int b => if b < 0 then none else some (.int (intPow a b.toNat))
+  | a, b => some (Sc.ofFloat (Float.pow a.toFloat b.toFloat))
+
+def scIntegral : Sc → Bool
+  | .int _ => true
+  | .real b => let x := Float.ofBits b; fTrunc x == x
+
+/-- dyads.py `_e_dyad_power` on numeric operands -/
+def ePower (a b : NV) : Res :=
+  match a, b with
+  | .unmod, _ => .ok .unmod
+  | _, .unmod => .ok .unmod
+  | a, b =>
+    -- float(a) if isinstance(a, (int, np.integer)) else a
+    let a' : NV := match a with
+      | .sc (.int n) => .sc (Sc.ofFloat (Float.ofInt n))
+      | a => a
+    match genBin scPow scPow false a' b with
+    | .raised => .raised
+    | .ok (.sc r) =>
+      if scIntegral r then
+        match r with
+        | .int n => .ok (.sc (.int n))
+        | .real bits =>
+          let x := Float.ofBits bits
+          if x.isInf then .raised else .ok (.sc (.int (floatToIntExact x)))
+      else .ok (.sc r)
+    | .ok (.arr r) =>
+      if r.data.all scIntegral then
+        .ok (.arr ⟨r.shape, r.data.map fun s => match s with
+          | .int n => .int n
+          | .real bits => .int (floatToI64 (Float.ofBits bits))⟩)
+      else .ok (.arr r)
+    | .ok _ => .ok .unmod
+
+/-- dyads.py `eval_dyad_power` -/
+def kgPower (a b : NV) : Res := vecFn2 false ePower a b
+
+/-! ### Negate -/
+
+def elNeg (f : Sc → Option Sc) (e : El) : Option El :=
+  match e with
+  | .sc s => (f s).map .sc
+  | .arr a => (allSome (a.data.map f)).map fun d => .arr ⟨a.shape, d⟩
+
+/-- Python `-x` in generated code -/
+def pyNeg (a : NV) : Res :=
+  match a with
+  | .unmod => .ok .unmod
+  | .undef => .raised
+  | .sc s => .ok (.sc (scNegExact s))
+  | .arr a => match allSome (a.data.map scNegNp) with
+    | some d => .ok (.arr ⟨a.shape, d⟩)
+    | none => .raised
+  | .obj xs => match allSome (xs.map (elNeg (fun s => some (scNegExact s)))) with
+    | some es => .ok (.obj es)
+    | none => .raised
+
+/-- same shape for every element that is a non-empty array (then `np.asarray(…, dtype=object)` in
+    `vec_fn` builds a rank-2 object array, which is outside the model) -/
+def objStacks (xs : List El) : Bool :=
+  match xs with
+  | .arr a0 :: _ => prod a0.shape != 0 && xs.all fun e => match e with
+    | .arr a => a.shape == a0.shape
+    | .sc _ => false
+  | _ => false
+
+/-- monads.py `eval_monad_negate`: vec_fn(a, np.negative ∘ kg_asarray) -/
+def kgNegate (a : NV) : Res :=
+  match a with
+  | .unmod => .ok .unmod
+  | .undef => .raised
+  | .sc s => optRes ((scNegNp s).map .sc)
+  | .arr a => match allSome (a.data.map scNegNp) with
+    | some d => .ok (.arr ⟨a.shape, d⟩)
+    | none => .raised
+  | .obj xs =>
+    if objStacks xs then .ok .unmod
+    else match allSome (xs.map (elNeg scNegNp)) with
+      | some es => .ok (.obj es)
+      | none => .raised
+
+/-! ### Over and Scan-Over (adverbs.py) -/
+
+def isAtom : NV → Bool
+  | .sc _ => true
+  | .undef => true
+  | .unmod => true
+  | .arr a => a.len == 0
+  | .obj xs => xs.isEmpty
+
+/-- the items of a list along axis 0 -/
+def items : NV → List NV
+  | .arr a => a.rows.map El.toNV
+  | .obj xs => xs.map El.toNV
+  | _ => []
+
+def fold1 (g : NV → NV → Res) : List NV → Res
+  | [] => .raised
+  | x :: r => r.foldl (fun acc y => acc.bind fun a => g a y) (.ok x)
+
+def scan1 (g : NV → NV → Res) : List NV → List Res
+  | [] => []
+  | x :: r => (r.foldl (fun (acc : Res × List Res) y =>
+      let n := acc.1.bind fun a => g a y
+      (n, acc.2 ++ [n])) (.ok x, [.ok x])).2
+
+/-- `ufunc.reduce(a)` along axis 0 for a non-empty list: elements of an object array are combined
+    with the Python operator, rows of a numeric array with the ufunc -/
+def ufuncReduce (op : AOp) (a : NV) : Res :=
+  match a with
+  | .arr _ => fold1 (npBin op) (items a)
+  | .obj _ => (match op with
+      | .max => .ok .unmod
+      | .min => .ok .unmod
+      | _ => fold1 (pyBin op) (items a))
+  | _ => .raised
+
+/-- rebuild an array / object array from the results of a scan over the items of `a` -/
+def restack (a : NV) (rs : List Res) : Res :=
+  match allOk rs with
+  | none => .raised
+  | some vs =>
+    if vs.any (· == .unmod) then .ok .unmod else
+    match a with
+    | .arr x =>
+      (match x.shape with
+       | [_] => (match allSc vs with
+          | some d => .ok (.arr ⟨[d.length], d⟩)
+          | none => .ok .unmod)
+       | n :: rest => (match allArrShape rest vs with
+          | some d => .ok (.arr ⟨n :: rest, d⟩)
+          | none => .ok .unmod)
+       | [] => .ok .unmod)
+    | .obj _ => (match allEl vs with
+       | some es => .ok (.obj es)
+       | none => .ok .unmod)
+    | _ => .raised
+
+def ufuncAccumulate (op : AOp) (a : NV) : Res :=
+  match a with
+  | .arr _ => restack a (scan1 (npBin op) (items a))
+  | .obj _ => restack a (scan1 (pyBin op) (items a))
+  | _ => .raised
+
+def aopOf (op : String) : Option AOp :=
+  if op = "+" then some .add else if op = "*" then some .mul
+  else if op = "|" then some .max else if op = "&" then some .min
+  else if op = "-" then some .sub else none
+
+/-- adverbs.py `eval_adverb_over` (monadic `f/a`) for the operators with a ufunc shortcut;
+    other verbs fold the dyad itself and are outside the model -/
+def kgOver (op : String) (a : NV) : Res :=
+  if a == .unmod then .ok .unmod
+  else if isAtom a then .ok a
+  else match items a with
+    | [x] => .ok x
+    | _ =>
+      if op = "+" then ufuncReduce .add a
+      else if op = "*" then ufuncReduce .mul a
+      else if op = "|" then ufuncReduce .max a     -- np.max (rank 1) / functools.reduce(np.maximum) (rank >= 2)
+      else if op = "&" then ufuncReduce .min a
+      else .ok .unmod
+
+/-- adverbs.py `eval_adverb_scan_over` -/
+def kgScan (op : String) (a : NV) : Res :=
+  if a == .unmod then .ok .unmod
+  else if isAtom a then .ok a
+  else if op = "+" then ufuncAccumulate .add a
+  else if op = "*" then ufuncAccumulate .mul a
+  else .ok .unmod
+
+/-- the dyads of `create_dyad_functions` that the model knows -/
+def kgDyad (op : String) (a b : NV) : Res :=
+  if op = "+" then npBin .add a b
+  else if op = "-" then npBin .sub a b
+  else if op = "*" then npBin .mul a b
+  else if op = "|" then npBin .max a b
+  else if op = "&" then npBin .min a b
+  else if op = "%" then kgDivide a b
+  else if op = "^" then kgPower a b
+  else if op = "=" then kgCmp .eq a b
+  else if op = "<" then kgCmp .lt a b
+  else if op = ">" then kgCmp .gt a b
+  else .ok .unmod
+
+def kgMonad (op : String) (a : NV) : Res :=
+  if op = "-" then kgNegate a else .ok .unmod
+
+/-! ## generated code: numpy calls -/
+
+/-- `np.<ufunc>.reduce(x, initial=None)`: a scalar reduces to itself, an empty operand raises -/
+def npReduceInit (op : AOp) (a : NV) : Res :=
+  match a with
+  | .unmod => .ok .unmod
+  | .undef => .ok .unmod
+  | .sc s => .ok (.sc s)
+  | a => if isAtom a then .raised else ufuncReduce op a
+
+/-- `np.<ufunc>.accumulate(x)`: raises for a scalar -/
+def npAccumulate (op : AOp) (a : NV) : Res :=
+  match a with
+  | .unmod => .ok .unmod
+  | .undef => .raised
+  | .sc _ => .raised
+  | a => if isAtom a then .ok a else ufuncAccumulate op a
+
+/-! ### the pre-repair templates (kept so that the defects they had stay stated and checked) -/
+
+/-- `np.<ufunc>.reduce(x)`: the ufunc's identity for an empty operand -/
+def npReduceIdent (op : AOp) (a : NV) : Res :=
+  match a with
+  | .unmod => .ok .unmod
+  | .undef => .ok .unmod
+  | .sc s => .ok (.sc s)
+  | a =>
+    if isAtom a then
+      (match op, a with
+       | .add, .arr x => if x.shape.length = 1 then .ok (.sc (Sc.real 0)) else .ok .unmod
+       | .mul, .arr x => if x.shape.length = 1 then .ok (.sc (Sc.real 4607182418800017408)) else .ok .unmod
+       | _, _ => .raised)
+    else ufuncReduce op a
+
+/-- `np.cumsum(x)` / `np.cumprod(x)`: flattens -/
+def npCumFlat (op : AOp) (a : NV) : Res :=
+  match a with
+  | .unmod => .ok .unmod
+  | .undef => .raised
+  | .sc s => .ok (.arr ⟨[1], [s]⟩)
+  | .arr x =>
+    if x.data.isEmpty then .ok (.arr ⟨[0], []⟩)
+    else restack (.arr ⟨[x.data.length], x.data⟩) (scan1 (npBin op) (x.data.map .sc))
+  | .obj _ => .ok .unmod
+
+/-- Python `**` on two Python numbers; arrays are outside the model of the old template -/
+def pyPowOld (a b : NV) : Res :=
+  match a, b with
+  | .sc (.int x), .sc (.int y) =>
+    if y ≥ 0 then .ok (.sc (.int (x ^ y.toNat)))
+    else if x = 0 then .raised
+    else .ok (.sc (Sc.ofFloat (Float.pow (Float.ofInt x) (Float.ofInt y))))
+  | .sc x, .sc y => .ok (.sc (Sc.ofFloat (Float.pow x.toFloat y.toFloat)))
+  | _, _ => .ok .unmod
+
+/-- Python `/`: ZeroDivisionError only between two Python numbers -/
+def pyDivOld (a b : NV) : Res :=
+  match a, b with
+  | .sc x, .sc y => optRes ((scDivPy x y).map .sc)
+  | a, b => genBin scDivPy scDivNp true a b
+
+/-- semantics of a binary template (prefix, infix, suffix) -/
+def binSem (t : String × String × String) : Option (NV → NV → Res) :=
+  if t = ("(", "+", ")") then some (pyBin .add)
+  else if t = ("(", "-", ")") then some (pyBin .sub)
+  else if t = ("(", "*", ")") then some (pyBin .mul)
+  else if t = ("_kg_divide(", ",", ")") then some kgDivide
+  else if t = ("_kg_power(", ",", ")") then some kgPower
+  else if t = ("_kg_equal(", ",", ")") then some (kgCmp .eq)
+  else if t = ("_kg_less(", ",", ")") then some (kgCmp .lt)
+  else if t = ("_kg_more(", ",", ")") then some (kgCmp .gt)
+  else if t = ("(", "/", ")") then some pyDivOld
+  else if t = ("(", "**", ")") then some pyPowOld
+  else none
+
+/-- semantics of a unary template (prefix, suffix) -/
+def unSem (t : String × String) : Option (NV → Res) :=
+  if t = ("(-", ")") then some pyNeg
+  else if t = ("np.add.reduce(", ", initial=None)") then some (npReduceInit .add)
+  else if t = ("np.multiply.reduce(", ", initial=None)") then some (npReduceInit .mul)
+  else if t = ("np.maximum.reduce(", ", initial=None)") then some (npReduceInit .max)
+  else if t = ("np.minimum.reduce(", ", initial=None)") then some (npReduceInit .min)
+  else if t = ("np.add.accumulate(", ")") then some (npAccumulate .add)
+  else if t = ("np.multiply.accumulate(", ")") then some (npAccumulate .mul)
+  else if t = ("np.add.reduce(", ")") then some (npReduceIdent .add)
+  else if t = ("np.multiply.reduce(", ")") then some (npReduceIdent .mul)
+  else if t = ("np.maximum.reduce(", ")") then some (npReduceIdent .max)
+  else if t = ("np.minimum.reduce(", ")") then some (npReduceIdent .min)
+  else if t = ("np.cumsum(", ")") then some (npCumFlat .add)
+  else if t = ("np.cumprod(", ")") then some (npCumFlat .mul)
+  else none
+
+/-! ## expressions, IR, generated Python -/
+
+/-- the part of a Klong syntax tree the property is about -/
+inductive Expr where
+  | lit (v : Sc) (text : String)          -- numeric literal with its Python `repr`
+  | var (s : String)
+  | dyad (op : String) (l r : Expr)
+  | monad (op : String) (x : Expr)
+  | over (op : String) (x : Expr)          -- op/x
+  | scan (op : String) (x : Expr)          -- op\x
+deriving DecidableEq, Repr, Inhabited
+
+/-- compiler.py IR tuples; `var i` is the parameter `_v{i}` -/
+inductive IR where
+  | literal (v : Sc) (text : String)
+  | var (i : Nat)
+  | binop (op : String) (l r : IR)
+  | cmp (op : String) (l r : IR)
+  | negate (x : IR)
+  | reduce (op : String) (x : IR)
+  | scan (op : String) (x : IR)
+deriving DecidableEq, Repr, Inhabited
+
+/-- the generated Python expression: each node is its f-string template around its operands -/
+inductive PyExpr where
+  | lit (v : Sc) (text : String)
+  | name (i : Nat)
+  | bin (t : String × String × String) (l r : PyExpr)
+  | un (t : String × String) (x : PyExpr)
+deriving DecidableEq, Repr, Inhabited
+
+def PyExpr.render : PyExpr → String
+  | .lit _ t => t
+  | .name i => "_v" ++ toString i
+  | .bin t l r => t.1 ++ l.render ++ t.2.1 ++ r.render ++ t.2.2
+  | .un t x => t.1 ++ x.render ++ t.2
+
+structure BTables where
+  binop : List (String × (String × String × String))
+  cmp : List (String × (String × String × String))
+  negate : String × String
+  reduce : List (String × (String × String))
+  scan : List (String × (String × String))
+
+def numpyTables : BTables :=
+  ⟨Tables.numpyBinop, Tables.numpyCmp, Tables.numpyNegate, Tables.numpyReduce, Tables.numpyScan⟩
+def torchTables : BTables :=
+  ⟨Tables.torchBinop, Tables.torchCmp, Tables.torchNegate, Tables.torchReduce, Tables.torchScan⟩
+
+/-- backends `_ir_to_source` (as a tree; `render` gives the string) -/
+def irToPy (T : BTables) : IR → Option PyExpr
+  | .literal v t => some (.lit v t)
+  | .var i => some (.name i)
+  | .binop op l r =>
+    match irToPy T l, irToPy T r, T.binop.lookup op with
+    | some l', some r', some t => some (.bin t l' r')
+    | _, _, _ => none
+  | .cmp op l r =>
+    match irToPy T l, irToPy T r, T.cmp.lookup op with
+    | some l', some r', some t => some (.bin t l' r')
+    | _, _, _ => none
+  | .negate x =>
+    match irToPy T x with
+    | some x' => some (.un T.negate x')
+    | none => none
+  | .reduce op x =>
+    match irToPy T x, T.reduce.lookup op with
+    | some x', some t => some (.un t x')
+    | _, _ => none
+  | .scan op x =>
+    match irToPy T x, T.scan.lookup op with
+    | some x', some t => some (.un t x')
+    | _, _ => none
+
+def irToSource (T : BTables) (ir : IR) : Option String := (irToPy T ir).map PyExpr.render
+
+/-- compiler.py `_ast_to_ir`; `refs` is `var_refs` (position = parameter number), `admit` the
+    compile-time test on a variable (its current value's type, or nothing after the operand check
+    moved to the call) -/
+def astToIR (admit : String → Bool) : Expr → List String → Option (IR × List String)
+  | .lit v t, refs => some (.literal v t, refs)
+  | .var s, refs =>
+    if admit s then
+      match refs.idxOf? s with
+      | some i => some (.var i, refs)
+      | none => some (.var refs.length, refs ++ [s])
+    else none
+  | .dyad op l r, refs =>
+    match astToIR admit l refs with
+    | none => none
+    | some (li, r1) =>
+      match astToIR admit r r1 with
+      | none => none
+      | some (ri, r2) =>
+        if op ∈ Tables.arithOps then some (.binop op li ri, r2)
+        else if op ∈ Tables.cmpOps then some (.cmp op li ri, r2)
+        else none
+  | .monad op x, refs =>
+    if op = Tables.negateOp then
+      match astToIR admit x refs with
+      | some (xi, r1) => some (.negate xi, r1)
+      | none => none
+    else none
+  | .over op x, refs =>
+    if op ∈ Tables.reduceScanOps then
+      match astToIR admit x refs with
+      | some (xi, r1) => some (.reduce op xi, r1)
+      | none => none
+    else none
+  | .scan op x, refs =>
+    if op ∈ Tables.reduceScanOps then
+      match astToIR admit x refs with
+      | some (xi, r1) => some (.scan op xi, r1)
+      | none => none
+    else none
+
+/-- base.py `_collect_params`: parameter numbers in order of first occurrence, after `acc` -/
+def collect : IR → List Nat → List Nat
+  | .literal _ _, acc => acc
+  | .var i, acc => if i ∈ acc then acc else acc ++ [i]
+  | .binop _ l r, acc => collect r (collect l acc)
+  | .cmp _ l r, acc => collect r (collect l acc)
+  | .negate x, acc => collect x acc
+  | .reduce _ x, acc => collect x acc
+  | .scan _ x, acc => collect x acc
+
+/-- what `compile_expr` returns: `def _expr(params): return py`, and `var_syms` -/
+structure Compiled where
+  py : PyExpr
+  params : List Nat
+  varSyms : List String
+deriving DecidableEq, Repr
+
+def compile (T : BTables) (admit : String → Bool) (e : Expr) : Option Compiled :=
+  match astToIR admit e [] with
+  | none => none
+  | some (ir, refs) =>
+    if Tables.requireVars && refs.isEmpty then none
+    else match irToPy T ir with
+      | none => none
+      | some py => some ⟨py, collect ir [], refs⟩
+
+abbrev Env := String → Option NV
+
+/-- value of the generated expression with the parameters bound by `ρ` -/
+def PyExpr.eval (ρ : Nat → Res) : PyExpr → Res
+  | .lit v _ => .ok (.sc v)
+  | .name i => ρ i
+  | .bin t l r =>
+    match binSem t with
+    | none => .raised
+    | some f => (l.eval ρ).bind fun a => (r.eval ρ).bind fun b => f a b
+  | .un t x =>
+    match unSem t with
+    | none => .raised
+    | some f => (x.eval ρ).bind f
+
+def lookupArg : List (Nat × NV) → Nat → Res
+  | [], _ => .raised
+  | (j, v) :: r, i => if j = i then .ok v else lookupArg r i
+
+def fetch (env : Env) : List String → Option (List NV)
+  | [] => some []
+  | s :: r => match env s, fetch env r with
+    | some v, some vs => some (v :: vs)
+    | _, _ => none
+
+/-- a call site: `args = [ctx[s] for s in var_syms]` (or `compiled_args`, which also tests the
+    operands with `callOK`), then `fn(*args)`; any exception is `raised` -/
+def runCompiled (callOK : NV → Bool) (c : Compiled) (env : Env) : Res :=
+  match fetch env c.varSyms with
+  | none => .raised
+  | some args =>
+    if args.length ≠ c.params.length then .raised
+    else if !(args.all callOK) then .raised
+    else c.py.eval (lookupArg (c.params.zip args))
+
+/-! ## the tree-walking interpreter and the whole system -/
+
+def envGet (env : Env) (s : String) : Res :=
+  match env s with
+  | some v => .ok v
+  | none => .raised
+
+/-- interpreter.py `eval` without any compiled code (`compile_expr` returning None) -/
+def Interp.eval (env : Env) : Expr → Res
+  | .lit v _ => .ok (.sc v)
+  | .var s => envGet env s
+  | .dyad op l r =>
+    -- `_y = self.eval(fa[1])` first, then `_x`
+    (Interp.eval env r).bind fun b => (Interp.eval env l).bind fun a => kgDyad op a b
+  | .monad op x => (Interp.eval env x).bind (kgMonad op)
+  | .over op x => (Interp.eval env x).bind (kgOver op)
+  | .scan op x => (Interp.eval env x).bind (kgScan op)
+
+/-- interpreter.py `eval` with the compiled fast path: at every operator and adverb-chain node the
+    memoised compiled function (if any) is tried first and any exception falls through to the
+    interpretation of the node, whose operands are evaluated the same way.  `memo e` is whatever is
+    stored in `x._compiled` / the per-text cache for that node: code compiled earlier, possibly under
+    other bindings. -/
+def Sys.eval (callOK : NV → Bool) (memo : Expr → Option Compiled) (env : Env) : Expr → Res
+  | .lit v _ => .ok (.sc v)
+  | .var s => envGet env s
+  | .dyad op l r =>
+    let slow := (Sys.eval callOK memo env r).bind fun b =>
+      (Sys.eval callOK memo env l).bind fun a => kgDyad op a b
+    match memo (.dyad op l r) with
+    | some c => orElse (runCompiled callOK c env) slow
+    | none => slow
+  | .monad op x =>
+    let slow := (Sys.eval callOK memo env x).bind (kgMonad op)
+    match memo (.monad op x) with
+    | some c => orElse (runCompiled callOK c env) slow
+    | none => slow
+  | .over op x =>
+    let slow := (Sys.eval callOK memo env x).bind (kgOver op)
+    match memo (.over op x) with
+    | some c => orElse (runCompiled callOK c env) slow
+    | none => slow
+  | .scan op x =>
+    let slow := (Sys.eval callOK memo env x).bind (kgScan op)
+    match memo (.scan op x) with
+    | some c => orElse (runCompiled callOK c env) slow
+    | none => slow
+
+/-- `KlongInterpreter.__call__`: the per-text cache is tried for the whole expression first
+    (also for a bare variable), then `self.call(...)` -/
+def Sys.top (callOK : NV → Bool) (memo : Expr → Option Compiled) (env : Env) (e : Expr) : Res :=
+  match memo e with
+  | some c => orElse (runCompiled callOK c env) (Sys.eval callOK memo env e)
+  | none => Sys.eval callOK memo env e
+
+/-! ## admissibility: where compiled and interpreted arithmetic are the same arithmetic -/
+
+def scInRange : Sc → Bool
+  | .int n => inRange n
+  | .real _ => true
+
+/-- the node's own scalar arithmetic stays inside int64 (Python integers are unbounded, numpy's
+    are not) -/
+def admNode (env : Env) : Expr → Bool
+  | .dyad op l r =>
+    match aopOf op, Interp.eval env l, Interp.eval env r with
+    | some o, .ok (.sc a), .ok (.sc b) => scInRange a && scInRange b && scInRange (scExact o a b)
+    | _, _, _ => true
+  | .monad _ x =>
+    match Interp.eval env x with
+    | .ok (.sc a) => scInRange a && scInRange (scNegExact a)
+    | _ => true
+  | _ => true
+
+def vars : Expr → List String
+  | .lit _ _ => []
+  | .var s => [s]
+  | .dyad _ l r => vars l ++ vars r
+  | .monad _ x => vars x
+  | .over _ x => vars x
+  | .scan _ x => vars x
+
+def admTree (env : Env) : Expr → Bool
+  | .lit v t => admNode env (.lit v t)
+  | .var s => admNode env (.var s)
+  | .dyad op l r => admNode env (.dyad op l r) && admTree env l && admTree env r
+  | .monad op x => admNode env (.monad op x) && admTree env x
+  | .over op x => admNode env (.over op x) && admTree env x
+  | .scan op x => admNode env (.scan op x) && admTree env x
+
+/-- `Adm e env`: every variable of `e` is bound and every scalar integer operation in `e` stays in
+    int64.  (Decidable: a `Bool`.) -/
+def Adm (env : Env) (e : Expr) : Bool :=
+  (vars e).all (fun s => (env s).isSome) && admTree env e
+
+/-! ## wire: Val <-> NV, expressions, the driver -/
+
+def scOfVal : Val → Option Sc
+  | .int n => some (.int n)
+  | .real b => some (.real b)
+  | _ => none
+
+/-- a rectangular numeric list as (shape, data) -/
+def rectOf : Nat → Val → Option (List Nat × List Sc)
+  | _, .int n => some ([], [.int n])
+  | _, .real b => some ([], [.real b])
+  | 0, _ => none
+  | fuel + 1, .list xs =>
+    match allSome (xs.map (rectOf fuel)) with
+    | none => none
+    | some [] => some ([0], [])
+    | some ((s0, d0) :: rest) =>
+      if rest.all (fun p => p.1 == s0) then
+        some ((rest.length + 1) :: s0, d0 ++ (rest.map (·.2)).flatten)
+      else none
+  | _, _ => none
+
+/-- what `kg_asarray` builds from a literal list (within the model) -/
+def ofVal (v : Val) : NV :=
+  match v with
+  | .int n => .sc (.int n)
+  | .real b => .sc (.real b)
+  | .undef => .undef
+  | .list xs =>
+    match rectOf 8 v with
+    | some (s, d) => (match s with
+        | [] => .unmod
+        | s => .arr ⟨s, upcast d⟩)
+    | none =>
+      match allSome (xs.map fun x => match rectOf 8 x with
+          | some ([], [s]) => some (El.sc s)
+          | some (s, d) => (match x with
+              | .list _ => some (El.arr ⟨s, upcast d⟩)
+              | _ => none)
+          | none => none) with
+      | some es => .obj es
+      | none => .unmod
+  | _ => .unmod
+
+def scToVal : Sc → Val
+  | .int n => .int n
+  | .real b => .real b
+
+def unflat : List Nat → List Sc → Val
+  | [], d => (match d with
+      | [x] => scToVal x
+      | _ => .undef)
+  | [_], d => .list (d.map scToVal)
+  | n :: rest, d => .list ((chunks n (prod rest) d).map (unflat rest))
+
+def elToVal : El → Val
+  | .sc s => scToVal s
+  | .arr a => unflat a.shape a.data
+
+def toVal : NV → Option Val
+  | .sc s => some (scToVal s)
+  | .arr a => some (unflat a.shape a.data)
+  | .obj xs => some (.list (xs.map elToVal))
+  | .undef => some .undef
+  | .unmod => none
+
+def resWire : Res → String
+  | .raised => "raised"
+  | .ok v => match toVal v with
+    | some x => x.toWire
+    | none => "unmod"
+
+open Val in
+/-- expression S-expressions: `(lit (i 3) 51)` (text as code points …) `(var 97)` `(dy + L R)` `(mo - X)`
+    `(ov + X)` `(sc + X)` -/
+partial def parseExpr : List Tok → Option (Expr × List Tok)
+  | .lp :: .atom "lit" :: r =>
+    match Val.parse r with
+    | some (v, r1) =>
+      (match scOfVal v, parseNats r1 [] with
+       | some s, some (cs, r2) => some (.lit s (String.ofList (cs.map Char.ofNat)), r2)
+       | _, _ => none)
+    | none => none
+  | .lp :: .atom "var" :: r =>
+    (match parseNats r [] with
+     | some (cs, r1) => some (.var (String.ofList (cs.map Char.ofNat)), r1)
+     | none => none)
+  | .lp :: .atom "dy" :: .atom op :: r =>
+    (match parseExpr r with
+     | some (l, r1) => (match parseExpr r1 with
+        | some (x, .rp :: r2) => some (.dyad op l x, r2)
+        | _ => none)
+     | none => none)
+  | .lp :: .atom "mo" :: .atom op :: r =>
+    (match parseExpr r with
+     | some (x, .rp :: r1) => some (.monad op x, r1)
+     | _ => none)
+  | .lp :: .atom "ov" :: .atom op :: r =>
+    (match parseExpr r with
+     | some (x, .rp :: r1) => some (.over op x, r1)
+     | _ => none)
+  | .lp :: .atom "sc" :: .atom op :: r =>
+    (match parseExpr r with
+     | some (x, .rp :: r1) => some (.scan op x, r1)
+     | _ => none)
+  | _ => none
+
+open Val in
+/-- IR S-expressions: `(literal (i 3) 51)` `(v 0)` `(binop + L R)` `(cmp = L R)` `(negate X)`
+    `(reduce + X)` `(scan + X)` -/
+partial def parseIR : List Tok → Option (IR × List Tok)
+  | .lp :: .atom "literal" :: r =>
+    match Val.parse r with
+    | some (v, r1) =>
+      (match scOfVal v, parseNats r1 [] with
+       | some s, some (cs, r2) => some (.literal s (String.ofList (cs.map Char.ofNat)), r2)
+       | _, _ => none)
+    | none => none
+  | .lp :: .atom "v" :: .atom n :: .rp :: r => n.toNat?.map fun i => (.var i, r)
+  | .lp :: .atom "binop" :: .atom op :: r =>
+    (match parseIR r with
+     | some (l, r1) => (match parseIR r1 with
+        | some (x, .rp :: r2) => some (.binop op l x, r2)
+        | _ => none)
+     | none => none)
+  | .lp :: .atom "cmp" :: .atom op :: r =>
+    (match parseIR r with
+     | some (l, r1) => (match parseIR r1 with
+        | some (x, .rp :: r2) => some (.cmp op l x, r2)
+        | _ => none)
+     | none => none)
+  | .lp :: .atom "negate" :: r =>
+    (match parseIR r with
+     | some (x, .rp :: r1) => some (.negate x, r1)
+     | _ => none)
+  | .lp :: .atom "reduce" :: .atom op :: r =>
+    (match parseIR r with
+     | some (x, .rp :: r1) => some (.reduce op x, r1)
+     | _ => none)
+  | .lp :: .atom "scan" :: .atom op :: r =>
+    (match parseIR r with
+     | some (x, .rp :: r1) => some (.scan op x, r1)
+     | _ => none)
+  | _ => none
+
+open Val in
+/-- `(env (97 V) (98 V))`: one-character variable names by code point -/
+partial def parseEnv : List Tok → List (String × NV) → Option (List (String × NV) × List Tok)
+  | .rp :: r, acc => some (acc.reverse, r)
+  | .lp :: .atom n :: r, acc =>
+    (match n.toNat?, Val.parse r with
+     | some c, some (v, .rp :: r1) => parseEnv r1 ((String.singleton (Char.ofNat c), ofVal v) :: acc)
+     | _, _ => none)
+  | _, _ => none
+
+def envOf (bs : List (String × NV)) : Env := fun s => bs.lookup s
+
+def hexOfString (s : String) : String := Wire.toHex (s.toUTF8.toList.map (·.toNat))
+
+def irWire : IR → String
+  | .literal v t => "(literal " ++ (scToVal v).toWire ++ " " ++ hexOfString t ++ ")"
+  | .var i => "(v " ++ toString i ++ ")"
+  | .binop op l r => "(binop " ++ op ++ " " ++ irWire l ++ " " ++ irWire r ++ ")"
+  | .cmp op l r => "(cmp " ++ op ++ " " ++ irWire l ++ " " ++ irWire r ++ ")"
+  | .negate x => "(negate " ++ irWire x ++ ")"
+  | .reduce op x => "(reduce " ++ op ++ " " ++ irWire x ++ ")"
+  | .scan op x => "(scan " ++ op ++ " " ++ irWire x ++ ")"
 
 structure State where
   unit : Unit := ()
 
 def init : State := {}
 
-def handle (s : State) (_ws : List String) : State × String := (s, "bad-op")
+def tablesOf (b : String) : Option BTables :=
+  if b = "numpy" then some numpyTables else if b = "torch" then some torchTables else none
+
+def optHex (o : Option String) : String :=
+  match o with
+  | some s => "some:" ++ hexOfString s
+  | none => "none"
+
+/-- requests
+    * `src <backend> <IR>`                   -> `some:<hex of the source>` | `none`
+    * `ev <backend> <admit 0|1> <Expr> (env …)` -> `ir=… src=… params=… syms=… compiled=… interp=… sys=… adm=…`
+      (`admit`: whether the compile-time test admits the variables; compiled under the same bindings) -/
+def handle (s : State) (ws : List String) : State × String :=
+  match ws with
+  | "src" :: b :: rest =>
+    (match tablesOf b, parseIR (Val.tokenize (" ".intercalate rest)) with
+     | some T, some (ir, []) => (s, optHex (irToSource T ir))
+     | _, _ => (s, "bad-op"))
+  | "ev" :: b :: adm :: rest =>
+    (match tablesOf b, parseExpr (Val.tokenize (" ".intercalate rest)) with
+     | some T, some (e, .lp :: .atom "env" :: r1) =>
+       (match parseEnv r1 [] with
+        | some (bs, []) =>
+          let env := envOf bs
+          let admit : String → Bool := fun v => adm == "1" && (env v).isSome
+          let c := compile T admit e
+          let irs := match astToIR admit e [] with
+            | some (ir, _) => irWire ir
+            | none => "none"
+          let interp := Interp.eval env e
+          let memo : Expr → Option Compiled := fun x => compile T admit x
+          let callOK : NV → Bool := fun _ => true
+          let sys := Sys.top callOK memo env e
+          let (src, params, syms, comp) := match c with
+            | some c => (optHex (some c.py.render), ",".intercalate (c.params.map toString),
+                         ",".intercalate c.varSyms, resWire (runCompiled callOK c env))
+            | none => ("none", "", "", "notcompiled")
+          (s, s!"ir={irs};src={src};params={params};syms={syms};compiled={comp};interp={resWire interp};sys={resWire sys};adm={if Adm env e then 1 else 0}")
+        | _ => (s, "bad-op"))
+     | _, _ => (s, "bad-op"))
+  | _ => (s, "bad-op")
 
 end Klong.C05
